@@ -9,14 +9,16 @@ variable {P : GSpec → Prop}
   (hspace : ∀ elems, (∀ g ∈ elems, P g) → P (.space elems))
   (hchoices : ∀ k cands ds so, (∀ c ∈ cands, P c) → P (.choices k cands ds so))
   (hfloat : ∀ lo hi, P (.float lo hi))
+  (hcustom : ∀ cid, P (.custom cid))
 
 set_option linter.unusedSectionVars false in
-include hspace hchoices hfloat in
+include hspace hchoices hfloat hcustom in
 mutual
   theorem GSpec.ind_g : (g : GSpec) → P g
     | .space elems => hspace elems (GSpec.ind_l elems)
     | .choices k cands ds so => hchoices k cands ds so (GSpec.ind_l cands)
     | .float lo hi => hfloat lo hi
+    | .custom cid => hcustom cid
   theorem GSpec.ind_l : (gs : List GSpec) → ∀ g ∈ gs, P g
     | [] => fun _ h => by cases h
     | g :: gs => fun k h => by
@@ -109,5 +111,88 @@ theorem enumG_length (g : GSpec) : ∀ n, sizeG g = some n → (enumG g).length 
   | hfloat lo hi =>
     intro n h
     simp [sizeG] at h
+  | hcustom cid =>
+    intro n h
+    simp [sizeG] at h
+
+/-! ### The sweep stays within the constrained space of a multi-choice -/
+
+theorem nodupNat_snoc (xs : List Nat) (i : Nat) (h : nodupNat xs = true) (hi : xs.contains i = false) :
+    nodupNat (xs ++ [i]) = true := by
+  induction xs with
+  | nil => simp [nodupNat]
+  | cons x xs ih =>
+    simp only [nodupNat, Bool.and_eq_true, Bool.not_eq_true'] at h
+    simp only [List.contains_cons, Bool.or_eq_false_iff] at hi
+    simp only [List.cons_append, nodupNat, Bool.and_eq_true, Bool.not_eq_true']
+    refine ⟨?_, ih h.2 hi.2⟩
+    have h1 := h.1
+    have h2 := hi.1
+    simp only [List.contains_eq_mem, List.mem_append, List.mem_singleton, decide_eq_false_iff_not] at h1 ⊢
+    simp only [beq_eq_false_iff_ne] at h2
+    rintro (hm | he)
+    · exact h1 hm
+    · exact h2 he.symm
+
+theorem sortedNat_snoc (xs : List Nat) (i : Nat) (h : sortedNat xs = true)
+    (hi : ∀ j, xs.getLast? = some j → j ≤ i) : sortedNat (xs ++ [i]) = true := by
+  match xs, h, hi with
+  | [], _, _ => simp [sortedNat]
+  | [x], _, hi =>
+    have := hi x (by simp)
+    simp [sortedNat, this]
+  | x :: y :: rest, h, hi =>
+    simp only [sortedNat, Bool.and_eq_true, decide_eq_true_eq] at h
+    simp only [List.cons_append, sortedNat, Bool.and_eq_true, decide_eq_true_eq]
+    refine ⟨h.1, ?_⟩
+    have := sortedNat_snoc (y :: rest) i h.2 (fun j hj => hi j (by simpa [List.getLast?_cons_cons] using hj))
+    simpa using this
+
+theorem constraintOk_snoc (dst so : Bool) (prior : List Nat) (i : Nat)
+    (h : constraintOk dst so prior = true) (ha : allowedIdx dst so prior i = true) :
+    constraintOk dst so (prior ++ [i]) = true := by
+  simp only [constraintOk, allowedIdx, Bool.and_eq_true, Bool.or_eq_true, Bool.not_eq_true'] at *
+  constructor
+  · rcases h.1 with hd | hn
+    · exact Or.inl hd
+    · rcases ha.1 with hd | hc
+      · exact Or.inl hd
+      · exact Or.inr (nodupNat_snoc prior i hn hc)
+  · rcases h.2 with hs | hn
+    · exact Or.inl hs
+    · rcases ha.2 with hs | hl
+      · exact Or.inl hs
+      · refine Or.inr (sortedNat_snoc prior i hn ?_)
+        intro j hj
+        simp only [hj, decide_eq_true_eq] at hl
+        exact hl
+
+theorem idxOf_norm (i : Nat) (cs : List DNA) : idxOf (DNA.norm (some (.idx i)) cs) = some i := by
+  simp [DNA.norm, idxOf]
+
+/-- Every index sequence the sweep of a multi-choice produces satisfies the `distinct` / `sorted`
+constraints (together with what was chosen before). -/
+theorem enumMulti_constrained (subs : List (List DNA)) (dst so : Bool) (r : Nat) (prior : List Nat)
+    (hp : constraintOk dst so prior = true) :
+    ∀ ds ∈ enumMulti subs dst so r prior,
+      ∃ is, allIdx ds = some is ∧ is.length = r ∧ constraintOk dst so (prior ++ is) = true := by
+  induction r generalizing prior with
+  | zero =>
+    intro ds hds
+    simp only [enumMulti, List.mem_singleton] at hds
+    subst hds
+    exact ⟨[], by simp [allIdx], rfl, by simpa using hp⟩
+  | succ r ih =>
+    intro ds hds
+    simp only [enumMulti, List.mem_flatMap, List.mem_range] at hds
+    obtain ⟨i, _, hds⟩ := hds
+    split at hds
+    · rename_i ha
+      simp only [List.mem_flatMap, List.mem_map] at hds
+      obtain ⟨sub, _, rest, hrest, rfl⟩ := hds
+      obtain ⟨is, hidx, hlen, hc⟩ := ih (prior ++ [i]) (constraintOk_snoc dst so prior i hp ha) rest hrest
+      refine ⟨i :: is, by simp [allIdx, idxOf_norm, hidx], by simp [hlen], ?_⟩
+      simpa [List.append_assoc] using hc
+    · cases hds
 
 end Pg.C13
